@@ -25,7 +25,7 @@ TECHNIQUE = ("model-based (stateful) testing: histories of flow_mods, packets, v
              "requests run against the switch and an independent OpenFlow 1.0 table model in lock-step; exhaustive short "
              "histories over a reduced alphabet plus Hypothesis-generated long ones")
 LEVEL_TEXT = ("Exploration by generated histories. Every history of length <= 2 (quick) / <= 3 (thorough) over a reduced alphabet "
-              "of 32 operations is enumerated, with and without the ExpireMixin timer; Hypothesis adds histories of up to 40 / 60 "
+              "of 32 operations and of length 3 / 4 over its 14-op core is enumerated, with and without the ExpireMixin timer; Hypothesis adds histories of up to 40 / 60 "
               "operations over the full alphabet. After every step the table (contents, counters, order) and every message sent "
               "are compared with the reference model under a virtual clock with dyadic instants, so there is no tolerance. The "
               "space of histories is infinite: this is dense search, not a proof.")
@@ -53,7 +53,7 @@ EXHAUSTIVE_SCOPE = {
   "quick": "all histories of length 1 and 2 over the reduced alphabet (32 ops: 9 ADD variants, 4 MODIFY / MODIFY_STRICT, 6 DELETE / DELETE_STRICT, "
            "3 packets, 5 advances, a direct sweep, 4 stats requests) and all histories of length 3 over its 14-op core, "
            "each x {timer off, ExpireMixin timer on}",
-  "thorough": "all histories of length <= 3 over the same alphabet x {timer off, timer on}",
+  "thorough": "all histories of length <= 3 over the same alphabet and all histories of length 4 over its 14-op core, each x {timer off, timer on}",
 }
 
 _BOOTED = False
@@ -636,5 +636,6 @@ def plan(tier):
     ]
   return [
     Enum("histories<=3", lambda: enum_histories(3), shards=16),
-    Hyp("histories", lambda: _history(60), examples=5000, shards=16),
+    Enum("core-histories=4", lambda: enum_histories(4, CORE, 4), shards=16),
+    Hyp("histories", lambda: _history(60), examples=100000, shards=16),
   ]
